@@ -1,5 +1,6 @@
 """C04 — T-Digest rank accuracy and bounded size: only the structure of the merge criterion is decided."""
 from ..terms import TermBuilder, fmt, mk, const, subterms, elem_of, apply_closure
+from ..terms import callee_is as _nm
 from ..guards import atomic_facts, fv
 from ..intervals import float_facts_to_env
 from .common import SELF, self_field
@@ -69,7 +70,7 @@ def structure_rules(ctx):
     for l, (init, upd) in carried.items():
         if init == const(0.0) and mg.local_ty(l) == "f64":
             q0 = l
-        if init[0] == "call" and init[1].endswith("ScaleFunction::f_inv"):
+        if init[0] == "call" and _nm(init[1], "ScaleFunction::f_inv"):
             qlim = l
     if not cur or q0 is None or qlim is None:
         ctx.shape("R04-merge-criterion", mg.key, mg, "cannot identify current / q_0 / q_limit among the loop-carried locals of merge")
@@ -92,7 +93,7 @@ def structure_rules(ctx):
             pair_ok = False
             if S[2][0][0] == "map":
                 X_ = S[2][0][1]
-                X_ = X_[2][0] if (X_[0] == "call" and X_[1].endswith("collect")) else X_
+                X_ = X_[2][0] if (X_[0] == "call" and _nm(X_[1], "collect")) else X_
                 if X_[0] == "map":
                     pr_ = elem_of(X_)
                     w3 = apply_closure(S[2][0][2], (pr_,))
@@ -155,19 +156,19 @@ def structure_rules(ctx):
         a = [tb.operand(x, bi, len(mg.blocks[bi].stmts)) for x in t.args]
         buf = a[0]
         key_ok = False
-        if buf[0] == "call" and buf[1].endswith("collect") and buf[2][0][0] == "map":
+        if buf[0] == "call" and _nm(buf[1], "collect") and buf[2][0][0] == "map":
             pair = elem_of(("map", ("dummy",), buf[2][0][2]))
             e = ("elem", ("dummy",))
             key_ok = pair[0] == "tuple" and pair[1][0] == mk("Div", ("field", e, "sum"), ("field", e, "count")) and pair[1][1] == e
         cmp_ok = False
         if a[1][0] == "closure":
             c = apply_closure(a[1], (("p", 1), ("p", 2)))
-            cmp_ok = any(s_[0] == "call" and s_[1].endswith("partial_cmp") and s_[2] == (("tfield", ("p", 1), 0), ("tfield", ("p", 2), 0)) for s_ in subterms(c))
+            cmp_ok = any(s_[0] == "call" and _nm(s_[1], "partial_cmp") and s_[2] == (("tfield", ("p", 1), 0), ("tfield", ("p", 2), 0)) for s_ in subterms(c))
         if not key_ok and not cmp_ok and a[1][0] == "closure":
             # the centroids themselves are sorted, the comparator takes the means: |c1, c2| c1.mean().partial_cmp(&c2.mean())
             c = apply_closure(a[1], (("p", 1), ("p", 2)))
             mean_ = lambda z: mk("Div", ("field", z, "sum"), ("field", z, "count"))
-            if any(s_[0] == "call" and s_[1].endswith("partial_cmp") and s_[2] == (mean_(("p", 1)), mean_(("p", 2))) for s_ in subterms(c)):
+            if any(s_[0] == "call" and _nm(s_[1], "partial_cmp") and s_[2] == (mean_(("p", 1)), mean_(("p", 2))) for s_ in subterms(c)):
                 key_ok = cmp_ok = True
         if not key_ok:
             probs.append("the sort key is not the centroid mean (sum / count)")
